@@ -29,6 +29,11 @@ pub struct AckState {
     pub acked_bytes: u64,
     /// conservative superset of the implementation's fast-recovery episodes
     pub poss_recovery: bool,
+    /// tighter superset used for "before the first loss event": the implementation enters recovery on 3
+    /// duplicate plain ACKs, on 3 consecutive SACK-bearing packets or on one SACK naming >= 3 packets;
+    /// one packet of margin is kept for same-instant ambiguity (2 duplicates / 2 consecutive SACK packets)
+    pub poss_loss_event: bool,
+    pub sack_streak: u32,
     pub recovery_point: i32,
     pub dup_count: u32,
     pub last_pure: Option<(u16, u32)>,
@@ -60,7 +65,7 @@ pub enum TxKind {
 
 impl SenderObs {
     pub fn new(expected_first: u16, initial_wnd: u32, mss0: usize) -> Self {
-        let st = AckState { cum: -1, sacked: BTreeSet::new(), wnd: initial_wnd, acked_bytes: 0, poss_recovery: false, recovery_point: -1, dup_count: 0, last_pure: None, ever_sack: false, t_last_rx: 0, t_last_advance: 0, mss_now: mss0, n_rx: 0 };
+        let st = AckState { cum: -1, sacked: BTreeSet::new(), wnd: initial_wnd, acked_bytes: 0, poss_recovery: false, poss_loss_event: false, sack_streak: 0, recovery_point: -1, dup_count: 0, last_pure: None, ever_sack: false, t_last_rx: 0, t_last_advance: 0, mss_now: mss0, n_rx: 0 };
         SenderObs { first_seq: None, expected_first, segs: BTreeMap::new(), highest: -1, fin_rel: None, fin_times: vec![], prev: st.clone(), st }
     }
 
@@ -75,6 +80,11 @@ impl SenderObs {
     /// bytes sent and not acknowledged under ack state `s`, up to and including rel `upto`
     pub fn outstanding(&self, s: &AckState, upto: i32) -> u64 {
         self.segs.range((s.cum + 1)..=upto).filter(|(k, _)| !s.sacked.contains(k)).map(|(_, g)| *g.lens.last().unwrap() as u64).sum()
+    }
+
+    /// bytes selectively (not yet cumulatively) acknowledged under ack state `s`
+    pub fn sacked_bytes(&self, s: &AckState) -> u64 {
+        s.sacked.iter().filter(|k| **k > s.cum).filter_map(|k| self.segs.get(k)).map(|g| *g.lens.last().unwrap() as u64).sum()
     }
 
     pub fn unacked_count(&self, s: &AckState) -> usize {
@@ -170,6 +180,10 @@ impl SenderObs {
         // conservative recovery flag: 2nd duplicate or any SACK. (The implementation counts
         // duplicates whenever a segment is queued, transmitted or not, so "data outstanding on
         // the wire" is deliberately not required here.)
+        if has_sack { s.sack_streak += 1; } else { s.sack_streak = 0; }
+        if s.dup_count >= 2 || s.sack_streak >= 2 || bits.iter().take(64).filter(|b| **b).count() >= 3 {
+            s.poss_loss_event = true;
+        }
         if s.dup_count >= 2 || has_sack {
             s.poss_recovery = true;
             s.recovery_point = s.recovery_point.max(self.highest);
